@@ -7,6 +7,10 @@ mod suggestion;
 mod utils;
 mod visitor;
 mod visitors;
+#[cfg(feature = "verif-hooks")]
+#[doc(hidden)]
+#[allow(missing_docs)]
+pub mod verif_hooks;
 
 pub use visitor::VisitorContext;
 use visitor::{VisitorNil, visit};
